@@ -359,6 +359,11 @@ func (vfs *OrefaFS) Link(oldname, newname string) error {
 		return &os.LinkError{Op: op, Old: oldname, New: newname, Err: vfs.errNotFound(nAbsPath, vfs.err.NoSuchFile)}
 	}
 
+	if !nChildOk && !nParent.mode.IsDir() && vfs.OSType() != avfs.OsWindows {
+		// The new name is below a file.
+		return &os.LinkError{Op: op, Old: oldname, New: newname, Err: vfs.err.NotADirectory}
+	}
+
 	oChild.mu.Lock()
 	defer oChild.mu.Unlock()
 
@@ -827,6 +832,11 @@ func (vfs *OrefaFS) Rename(oldname, newname string) error {
 
 	if !nParentOk {
 		return &os.LinkError{Op: op, Old: oldname, New: newname, Err: vfs.errNotFound(nAbsPath, vfs.err.NoSuchFile)}
+	}
+
+	if !nChildOk && !nParent.mode.IsDir() && vfs.OSType() != avfs.OsWindows {
+		// The new name is below a file.
+		return &os.LinkError{Op: op, Old: oldname, New: newname, Err: vfs.err.NotADirectory}
 	}
 
 	if oChild.mode.IsDir() && strings.HasPrefix(nAbsPath, oAbsPath+string(vfs.PathSeparator())) {
